@@ -398,6 +398,8 @@ class Mode(LogMixin):
         # Clean up the mode handlers and devices
         self._remove_mode_event_handlers()
         self._remove_mode_devices()
+        # handlers were still active while the mode was stopping and may have added delays after stop() cleared them
+        self.delay.clear()
 
         for callback in self.stop_callbacks:
             callback()
